@@ -255,7 +255,9 @@ class Prog:
     # ---- vfork ------------------------------------------------------------
     def vfork(self):
         """a vfork section: the child works on the parent's stack above the current frames, then execs/exits"""
-        if self.flight or self.exc or not self.frames:
+        # (with an empty shadow stack the parent takes plthook_exit's "FIXME" path: restore_vfork(NULL) and then a
+        #  second setup_vfork in the parent - control is right, the parent's trace buffer is not; not generated)
+        if self.flight or self.exc or not any(f["pend"] for f in self.frames):
             return False
         s, r = self.call_slot(), self.ra()
         main_ops, self.ops = self.ops, []
@@ -686,7 +688,8 @@ class E2EGen:
         self.exec_body = None
         self.atexit_fn = None
         self.exc_flavor = rng.choice(["int", "class", "std"])
-        self.timer = rng.random() < 0.25
+        # (an asynchronous signal with a traced handler while a C++ exception propagates is a listed finding)
+        self.timer = lang == "c" and rng.random() < 0.35
 
     def new_func(self):
         self.nf += 1
@@ -992,6 +995,51 @@ __attribute__((noinline)) int sorter() { int v[4] = {4, 3, 2, 1}; try { qsort(v,
 int main() { sorter(); sorter(); sorter(); printf("%d\n", sink); return 0; }
 """
 
+E2E_WITNESS_HANDLER_IN_LONGJMP = PRELUDE_C + r"""
+static sigjmp_buf sjb;
+static NI int fn_leaf(int x) { ENTER("fn_leaf"); return x + 1; }
+static NI int hleaf(int x) { return x + 1; }
+static NI void on_usr2(int s) { (void)s; sink += hleaf(1); }     /* shown inside siglongjmp, not judged */
+static NI int fn_jumper(int d) { ENTER("fn_jumper"); if (d == 0) siglongjmp(sjb, 1); CALL(fn_jumper, d - 1); return d; }
+static NI int fn_work(int x)
+{
+	sigset_t set; volatile int sd_;
+	ENTER("fn_work");
+	sigemptyset(&set); sigaddset(&set, SIGUSR2);
+	sd_ = D;
+	if (sigsetjmp(sjb, 1) == 0) {
+		sigprocmask(SIG_BLOCK, &set, NULL);
+		raise(SIGUSR2);              /* stays pending until siglongjmp restores the mask, i.e. inside siglongjmp */
+		CALL(fn_jumper, 2);
+	}
+	D = sd_;
+	CALL(fn_leaf, 10);
+	return x;
+}
+int main(void) { setvbuf(stdout, NULL, _IONBF, 0); ENTER("main"); signal(SIGUSR2, on_usr2); CALL(fn_work, 1); CALL(fn_leaf, 2);
+	CALL(fn_work, 2); CALL(fn_leaf, 3); logline("S", "sink", sink); return 0; }
+"""
+
+E2E_WITNESS_SIGNAL_IN_UNWIND = r"""
+#include <cstdio>
+#include <csignal>
+#include <sys/time.h>
+static volatile long ticks; volatile int sink;
+__attribute__((noinline)) int hleaf(int x) { return x + 1; }
+__attribute__((noinline)) void on_alarm(int) { ticks += hleaf(1); }
+__attribute__((noinline)) int deep(int d) { if (d == 0) throw 1; return deep(d - 1) + 1; }
+int main()
+{
+	struct itimerval it = { { 0, 100 }, { 0, 100 } };
+	signal(SIGALRM, on_alarm);
+	setitimer(ITIMER_REAL, &it, NULL);
+	for (int i = 0; i < 3000; i++) { try { deep(60); } catch (int) { sink++; } }
+	it.it_value.tv_usec = 0; it.it_interval.tv_usec = 0; setitimer(ITIMER_REAL, &it, NULL);
+	printf("%d %d\n", sink, ticks > 0);
+	return 0;
+}
+"""
+
 E2E_WITNESS_PTHREAD_EXIT_C = r"""
 #include <stdio.h>
 #include <pthread.h>
@@ -1155,7 +1203,8 @@ def judge_e2e(obs):
     # the record stream of the main task for the replay model (setjmp/longjmp programs)
     stream = None
     # (a program that execs itself restarts at depth 0 in the same task: the stream model has no exec record)
-    if sj and main_tid in obs.get("dump", {}) and not any(nm.startswith("exec") for _, nm, _ in obs["dump"][main_tid]):
+    # (nor records of an asynchronous handler between a longjmp ENTRY and the EXIT of its setjmp)
+    if sj and main_tid in obs.get("dump", {}) and not any(nm.startswith("exec") or nm == "on_tick" for _, nm, _ in obs["dump"][main_tid]):
         es, si, li = [], 0, 0
         ok = True
         for ty, nm, dep in obs["dump"][main_tid]:
@@ -1219,6 +1268,13 @@ def run_e2e(ctx, objdir):
         {"name": "w_abexc", "src": E2E_WITNESS_ABANDONED_LIBCALL_EXC, "lang": "c++", "flags": ["-pg", "-O0"], "key": "abandoned-libcall-untraced-exception",
          "what": "a library call (qsort) abandoned by an exception thrown from its callback was never traced again: later callbacks one level too high",
          "count": ("qsort", 3)},
+        {"name": "w_hdlj", "src": E2E_WITNESS_HANDLER_IN_LONGJMP, "lang": "c", "flags": ["-pg", "-O0"], "key": "handler-inside-siglongjmp",
+         "what": "a pending signal delivered inside siglongjmp (mask restored before the jump): replay resynchronised with the handler's "
+                 "EXIT record and showed every later call at the depth of the longjmp instead of the setjmp"},
+        {"name": "w_sigunwind", "src": E2E_WITNESS_SIGNAL_IN_UNWIND, "lang": "c++", "flags": ["-pg", "-O0"], "key": "signal-during-unwinding",
+         "what": "an asynchronous signal whose handler is traced arrives while a C++ exception propagates: __mcount_entry takes the handler for "
+                 "a function called from a landing pad (in_exception), re-hooks every return address under the unwinder's feet and the "
+                 "traced program aborts or crashes (100 us interval timer, 3000 throws through 60 frames)"},
         {"name": "w_maxstack", "src": E2E_WITNESS_MAX_STACK, "lang": "c", "flags": ["-pg", "-O0"], "key": "setjmp-beyond-rstack-max",
          "record_opts": ["--max-stack=2000"],
          "what": "setjmp with more than MCOUNT_RSTACK_MAX (1024) shadow-stack entries under --max-stack=2000: the snapshot array "
